@@ -92,7 +92,7 @@ func c20Type(t V) reflect.Type {
 		return reflect.ArrayOf(t.L[2].Int(), c20Type(t.L[1]))
 	case 21:
 		return reflect.MapOf(c20Type(t.L[1]), c20Type(t.L[2]))
-	case 22:
+	case 22, 26:
 		return reflect.PtrTo(c20Type(t.L[1]))
 	case 20:
 		return c20Iface[t.L[1].Int()]
@@ -134,7 +134,7 @@ func c20TypeOfVal(v V) reflect.Type {
 		return reflect.ArrayOf(len(v.L[2].L), c20Type(v.L[1]))
 	case 21:
 		return reflect.MapOf(c20Type(v.L[1]), c20Type(v.L[2]))
-	case 22:
+	case 22, 26:
 		return reflect.PtrTo(c20Type(v.L[1]))
 	case 20:
 		return c20Iface[v.L[1].Int()]
@@ -152,6 +152,9 @@ func c20TypeOfVal(v V) reflect.Type {
 // nodes built so far for the current top-level value, by sharing id
 var c20Shared = map[int]reflect.Value{}
 var c20SharedText = map[int]string{}
+
+// the heap cells built so far for the current size.Of/heap case: cell a is *c20Cells[a]
+var c20Cells []reflect.Value
 
 // the keys of every map built for the current value, in the order of the text
 var c20MapKeys = map[uintptr][]reflect.Value{}
@@ -176,6 +179,16 @@ func c20Build(v V, t reflect.Type) reflect.Value {
 	}
 	id := 0
 	switch v.L[0].Int() {
+	case 26:
+		// [26, T, a]: the pointer to heap cell a (size.Of/heap)
+		a := v.L[2].Int()
+		if a < 0 || a >= len(c20Cells) {
+			c20Fatal("reference to cell %d, %d cells built", a, len(c20Cells))
+		}
+		if c20Cells[a].Type() != t {
+			c20Fatal("reference to cell %d of type %s where %s is expected", a, c20Cells[a].Type(), t)
+		}
+		return c20Cells[a]
 	case 23:
 		id = c20ShareID(v, 4)
 	case 21:
@@ -323,6 +336,7 @@ func c20Arg(v V) (data interface{}) {
 	c20Shared = map[int]reflect.Value{}
 	c20SharedText = map[int]string{}
 	c20MapKeys = map[uintptr][]reflect.Value{}
+	c20Cells = nil
 	if v.IsList() && len(v.L) == 1 && !v.L[0].IsList() && v.L[0].Z.Sign() == 0 {
 		return nil
 	}
@@ -638,6 +652,30 @@ func c20CanonArg(v V) interface{} {
 	return data
 }
 
+
+// c20HeapArg builds the cells in order (cell a may refer to cells below a), then the root
+func c20HeapArg(cells, root V) (data interface{}) {
+	defer func() {
+		if e := recover(); e != nil {
+			c20Fatal("cannot build the heap value: %v", e)
+		}
+	}()
+	c20Shared = map[int]reflect.Value{}
+	c20SharedText = map[int]string{}
+	c20MapKeys = map[uintptr][]reflect.Value{}
+	c20Cells = nil
+	for _, c := range cells.L { // [T, value]
+		t := c20Type(c.L[0])
+		p := reflect.New(t)
+		p.Elem().Set(c20Build(c.L[1], t))
+		c20Cells = append(c20Cells, p)
+	}
+	if root.L[0].Int() == 20 {
+		c20Fatal("top-level value of interface kind")
+	}
+	return c20Build(root, c20TypeOfVal(root)).Interface()
+}
+
 func init() {
 	Exec["size.Of"] = func(a []V) string {
 		data := c20Arg(a[0])
@@ -704,6 +742,9 @@ func init() {
 	Exec["typehelper.ToSlice+size.Of"] = func(a []V) string {
 		data := c20CanonArg(a[0])
 		return Int(size.Of(typehelper.ToSlice(data)))
+	}
+	Exec["size.Of/heap"] = func(a []V) string {
+		return Int(size.Of(c20HeapArg(a[0], a[1])))
 	}
 	Register("C20", genC20)
 }
@@ -868,12 +909,16 @@ type c20Gen struct {
 	// case that carry a sharing id, by type text; a later node of the same type
 	// may reuse one of them (same text, same id => the SAME Go object)
 	pool   map[string][]string
+	cells  map[string][]int // size.Of/heap: heap cells generated so far, by type text
+	nRefs  int
 	nextID int
 	share  int // 0 = never share; otherwise 1 node in `share` gets an id / reuses one
 }
 
 func (c *c20Gen) reset(share int) {
 	c.pool = map[string][]string{}
+	c.cells = map[string][]int{}
+	c.nRefs = 0
 	c.nextID = 0
 	c.share = share
 }
@@ -951,6 +996,10 @@ func (c *c20Gen) val(t *c20T, depth int) string {
 	case t.K == 22:
 		if out || r.Intn(5) == 0 {
 			return L("22", t.Elem.Text(), L())
+		}
+		if cs := c.cells[t.Elem.Text()]; len(cs) > 0 && r.Intn(4) != 0 {
+			c.nRefs++
+			return L("26", t.Elem.Text(), Int(cs[r.Intn(len(cs))]))
 		}
 		if old, ok := c.reuse(t.Text()); ok {
 			return old
@@ -1453,6 +1502,100 @@ func genC20(g *Gen) {
 	toSlice(L("23", "[20,0]", "0", L("[20,0,[]]", "[20,0,[[24,x6162]]]", "[20,0,[]]", "[20,0,[[22,[3],[[3,5]]]]]", "[20,0,[[22,[3],[]]]]")), "exh-toslice")
 	toSlice(L("23", "[20,1]", "0", L("[20,1,[[22,[5],[[5,7]]]]]", "[20,1,[]]", "[20,1,[[22,[5],[[5,8]]]]]")), "exh-toslice")
 	g.Exhaust = append(g.Exhaust, fmt.Sprintf("ToSlice: slices of length 0..6 with distinct elements, a repeated element, nil slices and 6 kinds of non-slices over %d element types; slices of nil / non-nil interface values", len(elems)))
+
+
+	// (3e) size.Of/heap: values that share pointers, written as an ordered heap + a root
+	heapCase := func(cells []string, root, bucket string) {
+		refs, nested := strings.Count(root, "[26,"), 0
+		for _, c := range cells {
+			nested += strings.Count(c, "[26,")
+		}
+		g.Stat(bucket)
+		g.Do("size.Of/heap", L(L(cells...), root), fmt.Sprintf("heap/cells%d/rootrefs%d/cellrefs%d", minInt(len(cells), 6), minInt(refs, 6), minInt(nested, 6)))
+	}
+	for _, e := range elems {
+		T := e.t.Text()
+		PT := L("22", T)
+		ref := func(T string, a int) string { return L("26", T, Int(a)) }
+		// one cell, reached 2..4 times from a slice / array / struct / interface / map
+		c0 := []string{L(T, e.v(0))}
+		heapCase(c0, L("23", PT, "0", L(ref(T, 0), ref(T, 0))), "exh-heap")
+		heapCase(c0, L("17", PT, L(ref(T, 0), ref(T, 0), ref(T, 0))), "exh-heap")
+		heapCase(c0, L("25", L(ref(T, 0), L("20", "0", L(ref(T, 0))))), "exh-heap")
+		heapCase(c0, L("21", "[24]", PT, "0", L(L(L("24", Str("a")), ref(T, 0)), L(L("24", Str("b")), ref(T, 0)))), "exh-heap")
+		heapCase(c0, L("23", PT, "0", L(ref(T, 0), L("22", T, L(e.v(0))), ref(T, 0), L("22", T, L()))), "exh-heap")
+		heapCase(c0, ref(T, 0), "exh-heap")
+		// two cells of the same type
+		heapCase([]string{L(T, e.v(0)), L(T, e.v(1))}, L("23", PT, "0", L(ref(T, 1), ref(T, 0), ref(T, 1), ref(T, 0), ref(T, 1))), "exh-heap")
+		// a cell holding a pointer to a cell: **T shared at both levels
+		heapCase([]string{L(T, e.v(0)), L(PT, ref(T, 0))}, L("23", L("22", PT), "0", L(ref(PT, 1), ref(PT, 1), L("22", PT, L(ref(T, 0))))), "exh-heap")
+		// a tower of diamonds: cell k+1 = struct{a, b *cell k}; the unfolding doubles at every level
+		cells, ct := []string{L(T, e.v(0))}, T
+		for k := 0; k < 5; k++ {
+			nt := L("25", L(L("22", ct), L("22", ct)))
+			cells = append(cells, L(nt, L("25", L(ref(ct, k), ref(ct, k)))))
+			ct = nt
+			heapCase(cells, L("23", L("22", ct), "0", L(ref(ct, k+1), ref(ct, k+1))), "exh-heap")
+		}
+	}
+	g.Exhaust = append(g.Exhaust, fmt.Sprintf("heaps: one or two cells referenced 1..5 times from each container kind, a shared **T, towers of 1..5 diamonds (unfolding 4..64 copies) x %d element types", len(elems)))
+	// random ordered heaps: every cell may point to earlier cells
+	var htype func(depth int, cellTs []*c20T) *c20T
+	htype = func(depth int, cellTs []*c20T) *c20T {
+		if depth <= 0 {
+			return c20RandType(g.R, 0, false)
+		}
+		switch g.R.Intn(8) {
+		case 0, 1, 2:
+			if len(cellTs) > 0 {
+				return &c20T{K: 22, Elem: cellTs[g.R.Intn(len(cellTs))]}
+			}
+		case 3:
+			t := &c20T{K: 25}
+			for i, n := 0, g.R.Pick(1, 2, 2, 3); i < n; i++ {
+				t.Fields = append(t.Fields, htype(depth-1, cellTs))
+			}
+			return t
+		case 4:
+			return &c20T{K: 23, Elem: htype(depth-1, cellTs)}
+		case 5:
+			return &c20T{K: 17, Elem: htype(depth-1, cellTs), N: g.R.Pick(1, 2, 3)}
+		case 6:
+			return &c20T{K: 21, Key: c20S(g.R.Pick(24, 5, 7)), Elem: htype(depth-1, cellTs)}
+		}
+		return c20RandType(g.R, minInt(depth, 2), false)
+	}
+	for k, n := 0, g.N(1500, 30000); k < n; k++ {
+		gen.reset(g.R.Pick(0, 0, 3))
+		gen.budget = g.R.Pick(20, 60, 150)
+		cellTs, cells := []*c20T{}, []string{}
+		for i, nc := 0, g.R.Pick(1, 2, 2, 3, 4, 6); i < nc; i++ {
+			var t *c20T
+			for {
+				t = htype(g.R.Pick(0, 1, 2, 2), cellTs)
+				if t.K != 20 {
+					break
+				}
+			}
+			cells = append(cells, L(t.Text(), gen.val(t, 4)))
+			cellTs = append(cellTs, t)
+			gen.cells[t.Text()] = append(gen.cells[t.Text()], i)
+		}
+		var rt *c20T
+		for {
+			rt = htype(g.R.Pick(1, 2, 3), cellTs)
+			if rt.K != 20 {
+				break
+			}
+		}
+		root := gen.val(rt, 5)
+		if len(root)+len(strings.Join(cells, "")) > 6000 {
+			k--
+			continue
+		}
+		heapCase(cells, root, "rand-heap")
+	}
+	gen.reset(0)
 
 	// (3c) slices / arrays whose elements are ARRAYS of non-scalars: outer x array length x inner shape x leaf type
 	for _, e := range inner {
